@@ -274,6 +274,32 @@ impl ZKey {
     }
 }
 
+#[cfg(rce_verif)]
+impl ZKey {
+    /// Verification hook: the raw key.
+    pub const fn verif_u64(self) -> u64 {
+        self.0
+    }
+}
+
+#[cfg(rce_verif)]
+/// Verification hook: the 781 table words as (pieces[color][piece][square], castling, en passant, turn).
+pub fn verif_table() -> Vec<u64> {
+    let t = TABLE.get_or_init(ZTable::init);
+    let mut out = Vec::new();
+    for color in 0..2 {
+        for piece in 0..6 {
+            for square in 0..64 {
+                out.push(t.pieces[color][piece][square]);
+            }
+        }
+    }
+    out.extend_from_slice(&t.castling);
+    out.extend_from_slice(&t.en_passant);
+    out.push(t.white_turn);
+    out
+}
+
 ////////////////////////////////////////////////////////////////////////////////
 
 #[cfg(test)]
